@@ -262,8 +262,57 @@ fn check_fault_state(m: &Medium, k: usize, persistent: bool, what: &str) -> Resu
     Ok(())
 }
 
+/// stream calls: write / list / read / remove, invalid and unknown names are refused without effect
+fn s_streams() -> Result<(), String> {
+    let m = Medium::new();
+    let mut p = Package::create(PackageType::Installer, m.clone()).map_err(|e| e.to_string())?;
+    p.create_table("T", cols()).map_err(|e| e.to_string())?;
+    {
+        let mut w = p.write_stream("Icon.exe").map_err(|e| e.to_string())?;
+        w.write_all(b"hello").map_err(|e| e.to_string())?;
+    }
+    let listing = |p: &Package<Medium>| -> Vec<String> {
+        let mut v: Vec<String> = p.streams().collect();
+        v.sort();
+        v
+    };
+    if listing(&p) != vec!["Icon.exe".to_string()] {
+        return Err(format!("stream listing is {:?}", listing(&p)));
+    }
+    let long = "x".repeat(100);
+    if p.write_stream("").is_ok() || p.write_stream(long.as_str()).is_ok() || p.remove_stream("").is_ok() || p.read_stream("").is_ok() {
+        return Err("an invalid stream name was accepted".to_string());
+    }
+    if p.remove_stream("Missing").is_ok() || p.read_stream("Missing").is_ok() {
+        return Err("an unknown stream name was accepted".to_string());
+    }
+    if p.remove_stream("T").is_ok() || p.read_stream("T").is_ok() {
+        return Err("a table was reachable through the stream interface".to_string());
+    }
+    if listing(&p) != vec!["Icon.exe".to_string()] || !p.has_table("T") {
+        return Err(format!("a refused stream call changed the package: streams {:?}", listing(&p)));
+    }
+    let mut data = Vec::new();
+    p.read_stream("Icon.exe").map_err(|e| e.to_string())?.read_to_end(&mut data).map_err(|e| e.to_string())?;
+    if data != b"hello" {
+        return Err(format!("stream contents read back as {:?}", data));
+    }
+    p.remove_stream("Icon.exe").map_err(|e| e.to_string())?;
+    if !listing(&p).is_empty() || p.has_stream("Icon.exe") {
+        return Err("removed stream is still listed".to_string());
+    }
+    if p.drop_table("_Tables").is_ok() || p.drop_table("Missing").is_ok() || p.drop_table("9bad").is_ok() {
+        return Err("drop_table accepted a reserved / unknown / invalid name".to_string());
+    }
+    if !p.has_table("T") {
+        return Err("a refused drop_table changed the table list".to_string());
+    }
+    Ok(())
+}
+
 #[test]
 fn replay_protocol() {
+    report("streams", s_streams());
     report("summary_after_table_flush", s_summary_after_table(0));
     report("summary_after_table_into_inner", s_summary_after_table(1));
     report("summary_after_table_drop", s_summary_after_table(2));
